@@ -184,6 +184,23 @@ BagReading(B) ==
   IN [ok |-> Pt.ok /\ Len(Pt.roots) = 1 /\ \A i \in 1..Len(T) : HashableCell(T[i]),
       exact |-> exact, T |-> T, root |-> IF Pt.ok /\ Len(Pt.roots) = 1 THEN Pt.roots[1] ELSE 0]
 
+\* the account id a bag stands for as a state-init (hash of its root), <<>> if it has no reading
+BagRootHash(B) == LET R == BagReading(B) IN IF R.ok THEN ReprHash(InfoTable(R.T)[R.root]) ELSE <<>>
+\* RFC 4648 encoder (for generators that write bags themselves)
+B64Alphabet == <<65,66,67,68,69,70,71,72,73,74,75,76,77,78,79,80,81,82,83,84,85,86,87,88,89,90,
+                 97,98,99,100,101,102,103,104,105,106,107,108,109,110,111,112,113,114,115,116,117,118,119,120,121,122,
+                 48,49,50,51,52,53,54,55,56,57,43,47>>
+B64Encode(b) ==
+  LET n == Len(b)  g == (n + 2) \div 3
+      at(i) == IF i <= n THEN b[i] ELSE 0
+      ch(k) == LET q == (k - 1) \div 4  j == (k - 1) % 4  o == 3 * q
+                   v == CASE j = 0 -> at(o + 1) \div 4
+                          [] j = 1 -> (at(o + 1) % 4) * 16 + at(o + 2) \div 16
+                          [] j = 2 -> (at(o + 2) % 16) * 4 + at(o + 3) \div 64
+                          [] j = 3 -> at(o + 3) % 64
+               IN IF (j = 2 /\ o + 2 > n) \/ (j = 3 /\ o + 3 > n) THEN 61 ELSE B64Alphabet[v + 1]
+  IN [k \in 1..(4 * g) |-> ch(k)]
+
 \* What a state-init text (base64) says: every fact the decision needs, each one FALSE when a prerequisite is.
 StateInitFacts(text, addr) ==
   LET given == Len(text) > 0
@@ -273,6 +290,11 @@ PayloadVerdict(secret, life, now, text) ==
   ELSE LET fr == Fresh(now, BEInt(pl.t), life) IN IF fr = "yes" THEN "accept" ELSE IF fr = "no" THEN "reject" ELSE "free"
 \* a payload GeneratePayload returned during second `issued`, presented during second `now`: whatever it stores inside,
 \* it is issued under the secret and lives `life` seconds (whole seconds are recorded, so one second either way is free)
+\* An issued payload with anything changed -- a byte of the nonce, of the time the lifetime is measured from, of the tag --
+\* is no longer a payload the server issued: whatever the format, it must be refused.  (Only a respelling of the same
+\* bytes, e.g. upper-case hex digits, is left to the verdict of the unchanged payload.)
+TamperedVerdict(orig, text) ==
+  IF IsHexText(orig) /\ IsHexText(text) /\ HexDecode(orig) = HexDecode(text) THEN "free" ELSE "reject"
 IssuedVerdict(secret, life, issued, now, text) ==
   LET pl == PayloadParts(text) IN
   IF ~pl.wf \/ ~PayloadMacOK(secret, pl) THEN "malformed"
